@@ -338,6 +338,35 @@ def _valpred(fn):
     return f
 
 
+def f_is_obj(ex, st, e):
+    """is_obj(v, 'Cls'): v is a live instance of Cls (or a repo subclass)"""
+    v = ex.to_val(ex.ev1(e.args[0], st))
+    names = e.args[1].value.split("|")
+    alive = ex.heap_get(st, "$alive")
+    return _b(z3.And(Val.is_ref(v), alive[Val.o(v)], ex.is_instance(Val.o(v), names)))
+
+
+def f_is_list(ex, st, e):
+    v = ex.to_val(ex.ev1(e.args[0], st))
+    alive = ex.heap_get(st, "$alive")
+    return _b(z3.And(Val.is_ref(v), alive[Val.o(v)], cls_of(Val.o(v)) == ex.cid("LIST")))
+
+
+def f_as_obj(ex, st, e):
+    """as_obj(v, 'Cls'): view the value v as an instance of Cls (use under is_obj(v, 'Cls'))"""
+    v = ex.ev1(e.args[0], st)
+    names = e.args[1].value.split("|")
+    r = ex.as_ref(v, st, e) if v.k != "ref" else v
+    return SV("ref", r.t, Ty("obj", classes=names))
+
+
+def f_as_list(ex, st, e):
+    """as_list(v, 'Kind'): view the value v as a list whose elements have the element type of Kind"""
+    v = ex.ev1(e.args[0], st)
+    r = ex.as_ref(v, st, e) if v.k != "ref" else v
+    return SV("ref", r.t, Ty("list", name=e.args[1].value))
+
+
 def f_cls_is(ex, st, e):
     o = ex.as_ref(ex.ev1(e.args[0], st), st, e)
     names = e.args[1].value.split("|")
@@ -404,6 +433,6 @@ SPEC_FUNCS = {
     "is_false": _valpred(lambda v: v == Val.boolv(False)), "is_dec": _valpred(lambda v: z3.Or(Val.is_decv(v), Val.is_dpinf(v))),
     "is_fin": _valpred(smt.isfin), "is_pinf": _valpred(lambda v: Val.is_pinf(v)),
     "is_ref": _valpred(lambda v: Val.is_ref(v)), "is_str": _valpred(lambda v: Val.is_strv(v)),
-    "cls_is": f_cls_is, "alive": f_alive, "was_alive": f_was_alive, "same": f_same, "has": f_has,
+    "cls_is": f_cls_is, "is_obj": f_is_obj, "is_list": f_is_list, "as_obj": f_as_obj, "as_list": f_as_list, "alive": f_alive, "was_alive": f_was_alive, "same": f_same, "has": f_has,
     "owner": f_owner, "ref_eq": f_ref_eq, "real": f_realv,
 }
